@@ -716,4 +716,119 @@ theorem decodeChunks_valid (cs : List Bytes) : ∀ (p : Bytes) (outs : List Byte
           · exact hv
           · exact ih r.2 r2.1 r2.2 hp1 hd o ho
 
+/-! ### what the relay sends as text is accepted by the strict decoder -/
+
+/-- a byte string the strict decoder accepts completely, handing over exactly its bytes -/
+def StrictOk (x : Bytes) : Prop := goS [] x = some (x, [])
+
+theorem strictOk_nil : StrictOk [] := rfl
+
+theorem goS_wfChar (ch rest : Bytes) (h : wfChar ch = true) :
+    goS [] (ch ++ rest) = (goS [] rest).map (fun r => (ch ++ r.1, r.2)) := by
+  unfold wfChar at h
+  split at h
+  · rename_i a
+    simp only [decide_eq_true_eq] at h
+    have : seqLen a = 1 := by simp [seqLen, h]
+    simp [goS, stepS, this]
+  · rename_i a b
+    simp only [Bool.and_eq_true, decide_eq_true_eq] at h
+    obtain ⟨⟨h1, h2⟩, hb⟩ := h
+    have hl : seqLen a = 2 := by
+      simp only [seqLen]; rw [if_neg (by omega), if_pos ⟨h1, h2⟩]
+    have hs := secondOk_of_cont2 a b h1 h2 hb
+    simp [goS, stepS, hl, accepts, hs]
+    cases goS [] rest <;> rfl
+  · rename_i a b c
+    simp only [Bool.and_eq_true, decide_eq_true_eq] at h
+    obtain ⟨⟨⟨h1, h2⟩, hb⟩, hc⟩ := h
+    have hl : seqLen a = 3 := by
+      simp only [seqLen]; rw [if_neg (by omega), if_neg (by omega), if_pos ⟨h1, h2⟩]
+    simp [goS, stepS, hl, accepts, hb, hc]
+    cases goS [] rest <;> rfl
+  · rename_i a b c d
+    simp only [Bool.and_eq_true, decide_eq_true_eq] at h
+    obtain ⟨⟨⟨⟨h1, h2⟩, hb⟩, hc⟩, hd⟩ := h
+    have hl : seqLen a = 4 := by
+      simp only [seqLen]; rw [if_neg (by omega), if_neg (by omega), if_neg (by omega), if_pos ⟨h1, h2⟩]
+    simp [goS, stepS, hl, accepts, hb, hc, hd]
+    cases goS [] rest <;> rfl
+  · simp at h
+
+theorem strictOk_wf (chars : List Bytes) (h : ∀ ch ∈ chars, wfChar ch = true) : StrictOk chars.flatten := by
+  induction chars with
+  | nil => exact strictOk_nil
+  | cons ch rest ih =>
+    have := ih (fun c hc => h c (List.mem_cons_of_mem _ hc))
+    unfold StrictOk at this ⊢
+    rw [List.flatten_cons, goS_wfChar ch _ (h ch (by simp)), this]
+    simp
+
+theorem wfChar_FFFD : wfChar FFFD = true := by decide
+
+/-- the replace automaton only ever emits whole well-formed characters -/
+theorem stepB_wf (p : Bytes) (x : UInt8) (hp : pendOk p = true) :
+    pendOk (stepB p x).2 = true ∧ ∃ chars : List Bytes, (∀ c ∈ chars, wfChar c = true) ∧ (stepB p x).1 = chars.flatten := by
+  have hstart : pendOk (start x).2 = true ∧ ∃ chars : List Bytes, (∀ c ∈ chars, wfChar c = true) ∧ (start x).1 = chars.flatten := by
+    unfold start
+    rcases seqLen_cases x with c | c | c | c | c
+    · simp only [c.1, if_true]
+      exact ⟨rfl, [[x]], by simp [wfChar, c.2], by simp⟩
+    · simp only [c.1]; exact ⟨by simp [pendOk, c.1], [], by simp, by simp⟩
+    · simp only [c.1]; exact ⟨by simp [pendOk, c.1], [], by simp, by simp⟩
+    · simp only [c.1]; exact ⟨by simp [pendOk, c.1], [], by simp, by simp⟩
+    · simp only [c]; exact ⟨rfl, [FFFD], by simp [wfChar_FFFD], by simp⟩
+  cases hs : stepS p x with
+  | some r =>
+    obtain ⟨o, p'⟩ := r
+    have hb := stepS_stepB p x (o, p') hs
+    obtain ⟨h1, h2⟩ := stepS_wf p x o p' hp hs
+    rw [hb]
+    refine ⟨h1, ?_⟩
+    rcases h2 with h0 | h0
+    · exact ⟨[], by simp, by simp [h0]⟩
+    · exact ⟨[o], by simp [h0], by simp⟩
+  | none =>
+    -- the strict decoder fails: the replace automaton emits U+FFFD (unless nothing is pending) and restarts on x
+    match p, hp with
+    | [], _ => simpa [stepB] using hstart
+    | b0 :: rest, _ =>
+      have hacc : accepts (b0 :: rest) x = false := by
+        cases ha : accepts (b0 :: rest) x with
+        | false => rfl
+        | true => simp [stepS, ha] at hs; split at hs <;> simp at hs
+      obtain ⟨hp', chars, hch, ho⟩ := hstart
+      simp only [stepB, hacc, Bool.false_eq_true, if_false]
+      exact ⟨hp', FFFD :: chars, by intro c hc; simp at hc; rcases hc with rfl | hc; exact wfChar_FFFD; exact hch c hc,
+        by simp [ho]⟩
+
+theorem go_wf (a : Bytes) : ∀ p, pendOk p = true →
+    ∃ chars : List Bytes, (∀ c ∈ chars, wfChar c = true) ∧ go p a = chars.flatten := by
+  induction a with
+  | nil =>
+    intro p _
+    unfold go flush
+    split
+    · exact ⟨[], by simp, by simp⟩
+    · exact ⟨[FFFD], by simp [wfChar_FFFD], by simp⟩
+  | cons x xs ih =>
+    intro p hp
+    obtain ⟨hp1, c1, hc1, ho1⟩ := stepB_wf p x hp
+    obtain ⟨c2, hc2, ho2⟩ := ih _ hp1
+    refine ⟨c1 ++ c2, ?_, by simp [go, ho1, ho2]⟩
+    intro c hc
+    rcases List.mem_append.mp hc with h | h
+    · exact hc1 c h
+    · exact hc2 c h
+
+/-- what `Fragmentizer.msg` + wsproto put on the wire for a text fragment is always accepted by the receiving
+    endpoint's strict decoder, completely and unchanged -/
+theorem strictOk_san (x : Bytes) : StrictOk (san x) := by
+  obtain ⟨chars, hch, ho⟩ := go_wf x [] rfl
+  unfold san; rw [ho]
+  exact strictOk_wf chars hch
+
+theorem incDecode_strictOk (x : Bytes) (fin : Bool) (h : StrictOk x) : incDecode [] x fin = some (x, []) := by
+  unfold incDecode; rw [h]; simp
+
 end MitmVerif.C28
